@@ -4,11 +4,13 @@ import QmcModel.Rand
 import QmcModel.BondContainer
 import QmcModel.Rvb
 import QmcModel.RvbRegion
+import QmcModel.RvbRegionOK
 open Qmc Qmc.Proto Qmc.Rvb
 
 /-! Driver for C03: pure helpers + `BondContainer` (mode `helpers`), RVB updates (mode `rvb`:
 kind `rvb` = acceptance / move / balance for the traced region, kind `region` = the exact proposal
-model `proposeRegion` replayed on the recorded draws). -/
+model `proposeRegion` replayed on the recorded draws; kind `khyp` = the decidable hypotheses of the
+kernel theorems on the traced proposal). -/
 
 def showKeys (ks : List (Nat × Rat)) : String :=
   showList (fun kw => s!"{kw.1}:{showRat kw.2}") ks
@@ -79,7 +81,7 @@ def allB (l : List Bool) : Bool := l.all id
 def admissibleB (P : Problem) (a : Assign) : Bool :=
   P.segs.all (fun s => s.bonds.all fun p => decide (0 ≤ p.1) && decide (0 ≤ p.2)) &&
   P.inner.all (fun p => decide (0 ≤ p.1) && decide (0 ≤ p.2)) &&
-  P.segs.all (fun s => !(decide (absR (s.wBef - s.wAft) < f64eps)) || decide (s.wBef = s.wAft)) &&
+  P.segs.all (fun s => !(decide (Rvb.absR (s.wBef - s.wAft) < f64eps)) || decide (s.wBef = s.wAft)) &&
   (P.segs.zip a).all (fun sj => sj.2.isEmpty || decide (sj.1.wBef ≠ 0))
 
 def rvbStep (nv edges gamma h state slots subvars start toggles accepted log astate aslots : String) : String :=
@@ -138,9 +140,26 @@ def rvbStep (nv edges gamma h state slots subvars start toggles accepted log ast
         decide (weight P asg * transProb P asg asg2 = weight P2 asg2 * transProb P2 asg2 asg)
     else decide (a = b) && (okB || broke)
   -- what the proposal reads is untouched by the update (hypothesis and conclusion of `proposal_symmetric`)
-  let skelOk := edgeOpsNotConst E b.slots && decide (skeleton E a = skeleton E b)
+  let skelOk := edgeOpsNotConst E b.slots && decide (Rvb.skeleton E a = Rvb.skeleton E b)
   let verdict := if margin < 1 / 1000000000 then "?" else "ok"
-  s!"{showApprox pCode} {k} {showBool accOk} {showBool (startOk && growOk)} {moveTok} {p2Tok} {showBool (dbOk && codeOk && skelOk)} {verdict}"
+  -- the decidable hypothesis `RegionOK` of the kernel theorems (`ising_timestep_invariant_rvb_cut`) on the
+  -- traced region: for the configuration before the update and, if it was applied, the one after
+  let rok := regionOKb E b R && (!acc || regionOKb E a R)
+  s!"{showApprox pCode} {k} {showBool accOk} {showBool (startOk && growOk)} {moveTok} {p2Tok} {showBool (dbOk && codeOk && skelOk)} {verdict} rok={showBool rok}"
+
+/-- kind `khyp` (same input as `rvb`): the hypotheses of the kernel theorem on this proposal.
+Output: `RegionOK before`, `RegionOK after` (`-` if rejected), sweep not abandoned on `before`, on `after` (`-` if
+rejected), `moveOKb before after` (`-` if rejected; the decider of `MoveOK`: move relation, Good, RegionOK, no
+underflow on both ends). -/
+def khypStep (nv edges gamma h state slots subvars start toggles accepted astate aslots : String) : String :=
+  let E : Ising := { nvars := parseNat nv, edges := parseEdges edges, gamma := parseRat gamma, h := parseRat h }
+  let b : Config := { state := parseBits state, slots := parseSlots slots }
+  let a : Config := { state := parseBits astate, slots := parseSlots aslots }
+  let sv := parseNats subvars
+  let R : Region := { subvars := sv, mask0 := mkMask E.nvars sv (parseBits start), toggles := parseNats toggles }
+  let acc := accepted == "1"
+  let t := fun (x : Bool) => if acc then showBool x else "-"
+  s!"{showBool (regionOKb E b R)} {t (regionOKb E a R)} {showBool (!(rvbCodeMult E b R).2)} {t (!(rvbCodeMult E a R).2)} {t (moveOKb E E.nvars R b a)}"
 
 /-- kind `region`: the exact proposal model on the recorded draws. Output: subvars, starting state,
 toggle positions, number of words consumed before the accept draw, status. -/
@@ -151,7 +170,9 @@ def regionStep (nv edges slots log : String) : String :=
   let status :=
     if rs.short then "SHORT" else if rs.panicked || P.panic then "PANIC"
     else if rs.margin < 1 / 1000000000 then "?" else "ok"
-  s!"{showNats P.subvars} {showBits P.start} {showNats P.toggles} {rs.draws} {status}"
+  -- `RegionOK` of the model's own proposal (= the traced one when the correspondence holds)
+  let rok := if status == "ok" || status == "?" then s!" rok={showBool (regionOKb E c (P.region E.nvars))}" else ""
+  s!"{showNats P.subvars} {showBits P.start} {showNats P.toggles} {rs.draws} {status}{rok}"
 
 def step (toks : List String) : String :=
   match toks with
@@ -169,6 +190,8 @@ def step (toks : List String) : String :=
   | ["rvb", nv, edges, gamma, h, state, slots, subvars, start, toggles, accepted, log, astate, aslots] =>
     rvbStep nv edges gamma h state slots subvars start toggles accepted log astate aslots
   | ["region", nv, edges, slots, log] => regionStep nv edges slots log
+  | ["khyp", nv, edges, gamma, h, state, slots, subvars, start, toggles, accepted, _log, astate, aslots] =>
+    khypStep nv edges gamma h state slots subvars start toggles accepted astate aslots
   | ["ptf", nv, edges, gamma, h, state, slots, subvars, start, toggles] =>
     let E : Ising := { nvars := parseNat nv, edges := parseEdges edges, gamma := parseRat gamma, h := parseRat h }
     let b : Config := { state := parseBits state, slots := parseSlots slots }
